@@ -8,6 +8,7 @@ TRUST = "bounded: finite program family and input length; trusted: TLC, the TLA+
 
 CHECKS = {
  "C01": ("model_checking", "TLC enumerates every behaviour of the reference specification (declarative longest-match / first-rule selection over the regex languages) for each program of the family and every input up to the bound; each expected trace is replayed in the real generated lexer and the (rule, lexeme) sequences compared.", REPLAY_TECH, "DESIGN.md 5 C01"),
+ "C02": ("model_checking", "Every automaton the real macro builds for the bounded-exhaustive regex family (and for random larger definitions) is compared by TLC with the Antimirov derivative automaton of the definition by exploring the product of the two (Bisim.tla) - exact for all strings because both are finite; each automaton is also compared with the reference automaton of an equivalent regex (README equivalences); TLC checks that the declarative language semantics (Ends) and the derivative automaton agree; a sample is compiled and run on all short inputs.", "TLC product exploration (bisimulation) of real dumped automata against the TLA+ reference automaton; replay of RefLexer behaviours", "DESIGN.md 5 C02"),
  "C03": ("model_checking", "As C01 with multi-rule-set programs whose actions take every history of switch/continue/return decisions their menus allow (TLC explores all of them); the rule that runs must belong to the rule set the specification says is active.", REPLAY_TECH, "DESIGN.md 5 C03"),
  "C04": ("model_checking", "As C01 for programs whose rules carry right contexts of every shape; the reference treats a candidate with a failed context as absent and never consumes the context.", REPLAY_TECH, "DESIGN.md 5 C04"),
  "C05": ("model_checking", "TLC enumerates all inputs up to the bound, hence every point at which the input can end, for programs with and without `$` rules in Init and other rule sets; items around end-of-input and four extra next() calls are compared with the specification (Fused, Progress checked on the spec).", REPLAY_TECH, "DESIGN.md 5 C05"),
@@ -17,13 +18,16 @@ CHECKS = {
  "C09": ("model_checking", "TLC checks the variant (Progress) and the bounds (Bounded) on the specification; real lexers are run freely under catch_unwind, an action budget and a watchdog on exhaustive small and random/long inputs, and each recording is validated by TLC as a behaviour of the specification.", REPLAY_TECH, "DESIGN.md 5 C09"),
  "C10": ("model_checking", "TLC explores every decision history the rules' menus allow (continue/return/Err x reset_match x switch); every action invocation (rule, match_loc, match_ text, peek, user-state counter) and every token is compared.", REPLAY_TECH, "DESIGN.md 5 C10"),
  "C11": ("model_checking", "RangeMap.tla transcribes the three loops of range_map.rs iteration by iteration; TLC checks well-formedness and the point-wise meaning for every reachable representation and every operation over a small universe and prints every transition; each transition is replayed into the real RangeMap (by induction: all operation histories); one-class lexers for class expressions are checked against RefLexer.tla at every boundary point.", "TLA+ loop-level spec of RangeMap + TLC state graph replayed transition by transition into the real code; class-expression lexers replayed against RefLexer.tla", "DESIGN.md 5 C11"),
+ "C12": ("model_checking", "Backtrack.tla: TLC checks termination (liveness under weak fairness), monotonicity and result correctness of the work-list analysis for every small graph and every processing order; the iterations recorded from the real analysis are validated as behaviours of that spec; Names.tla: generated item names of two lexers are disjoint and recorded names match the scheme; the real macro expands a seeded family twice under a watchdog (determinism, time) and rustc compiles the scenarios the property lists. 'Compiles' is observed with rustc, which no spec can replace.", "TLA+ work-list spec (liveness) + trace validation of recorded iterations; expansion under watchdog; rustc as oracle for 'compiles'", "DESIGN.md 5 C12"),
  "C13": ("exploration", "Exhaustive over the stated domain: every built-in, three to four generated shapes, all 1,112,064 scalar values, compared with the Rust predicates (oracle imported at check time); TLC checks the two generated membership-test shapes (guard chain, binary search with the generated comparator) on all small tables (Lookup.tla). The truth of char::is_* cannot live in a TLA+ spec, hence exploration level.", "exhaustive sweep of real lexers against Rust predicates + TLA+ Lookup.tla for the two lookup shapes", "DESIGN.md 5 C13"),
  "C14": ("model_checking", "Every specification behaviour is replayed through the four constructors; the four recorded streams must be the same stream; random runs through random constructors are validated by TLC.", REPLAY_TECH, "DESIGN.md 5 C14"),
+ "C16": ("model_checking", "Syntax.tla states the documented five-level grammar as a recursive-descent parser and a minimal/redundant printer; TLC checks Parse(Print(t)) = t for every tree up to the bound and prints every (tree, token string); each string is expanded by the real macro and the syntax tree built by its parser (dump hook) is compared with the tree; let-factoring variants must give identical automata; a rule-set-local binding used elsewhere must be rejected.", "TLA+ grammar spec + TLC enumeration of printed trees replayed into the real parser", "DESIGN.md 5 C16"),
+ "C17": ("model_checking", "Defs.tla defines static well-formedness over an abstract syntax of definitions (items, lets with lazily resolved uses, rule sets, error type); TLC enumerates every definition up to the bound with its verdict; each is rendered and expanded by the real macro: ill-formed => panic or compile_error, never code (and well-formed ones expand).", "TLA+ well-formedness spec + TLC enumeration of all small definitions replayed into the real macro", "DESIGN.md 5 C17"),
  "C18": ("model_checking", "CharRangeGen.tla models the generator's single pass (one action per code point, skip of the surrogate gap, open-range register, final flush); TLC runs it for all 256 predicates that are constant on 8 scalar segments, checks the result property and termination, and every predicate is concretised and run through the real generator; the 20 real predicates are compared with brute-force maximal runs.", "TLA+ spec of the generator loop + TLC over all boundary predicates, each replayed into the real function", "DESIGN.md 5 C18"),
  "C15": ("model_checking", "The specification is deterministic (one successor per decision), so a clone must continue with the same suffix; for every behaviour and every clone point original and clone are advanced under several interleavings and both suffixes compared with the specification.", REPLAY_TECH, "DESIGN.md 5 C15"),
 }
 
-PENDING = ["C02", "C12", "C16", "C17"]
+PENDING = []
 
 def main():
     checks = []
